@@ -58,3 +58,12 @@ Lemma kube_exact_free : forall l, kwf_free_run [] l ->
   (forall ip, In ip (klast s) <-> In ip (ktruth l)) /\
   (forall ip, In ip (kend s) <-> In ip (ktruth l)).
 Proof. intros l H. apply kube_exact. apply kwf_free_run_kwf. exact H. Qed.
+
+(* ------------------------------------------------------------------ cluster.reload *)
+(* the source today (repair a5553bd, F26): reload waits for the previous watch goroutines
+   after releasing cluster.lock.  The models are sequential (events of one watcher are handled
+   one after the other) - which is only true of the code if reload cannot block the watch
+   goroutine it waits for; tools/props/c13.py replays that schedule on the real code at every
+   run (reload monitor 1).  If the Wait moves back under the lock, this obligation breaks. *)
+Lemma reloadWaitsOutsideLock_today : gen_reloadWaitsOutsideLock = true.
+Proof. reflexivity. Qed.
